@@ -10,6 +10,8 @@ import (
 	"sort"
 	"strconv"
 	"strings"
+	"sync"
+	"time"
 
 	"perkeep.org/pkg/sorted"
 
@@ -47,6 +49,19 @@ type hist struct {
 
 	model map[string]string
 	rec   *caseRec
+
+	sortedKeys []string // cache of sortedModelKeys; valid while sortedOK
+	sortedOK   bool
+
+	// tx, when non-nil, is an open read transaction: checkGet and doFind read through it and
+	// h.model is (temporarily) the map as it was when the transaction began.
+	tx sorted.ReadTransaction
+
+	bulk     bool // a history pre-loaded with thousands of keys
+	baseN    int  // universe keys [0,baseN) are the clustered universe, the rest are bulk keys
+	maxLive  int
+	midStops int // range scans that stopped after >= 100 pairs with more to come
+	bigScans int // range scans that returned >= 1000 pairs
 
 	reported int
 	dead     bool
@@ -102,19 +117,61 @@ func (h *hist) guard(where string, fn func()) bool {
 }
 
 func (h *hist) keyDesc(k string) string {
-	if i, ok := h.idx[k]; ok {
+	if i, ok := h.idx[k]; ok && i < h.baseN {
 		return "#" + strconv.Itoa(i)
 	}
-	return descStr(k)
+	return descStr(k) // bulk keys are short: described by themselves
 }
 
 func (h *hist) sortedModelKeys() []string {
+	if h.sortedOK {
+		return h.sortedKeys
+	}
 	ks := make([]string, 0, len(h.model))
 	for k := range h.model {
 		ks = append(ks, k)
 	}
 	sort.Strings(ks) // Go string order is byte order
+	h.sortedKeys, h.sortedOK = ks, true
 	return ks
+}
+
+// mset, mdel and mreplace are the only places where the model changes.
+func (h *hist) mset(k, v string) {
+	if _, ok := h.model[k]; !ok {
+		h.sortedOK = false
+	}
+	h.model[k] = v
+	if len(h.model) > h.maxLive {
+		h.maxLive = len(h.model)
+	}
+}
+
+func (h *hist) mdel(k string) {
+	if _, ok := h.model[k]; ok {
+		h.sortedOK = false
+		delete(h.model, k)
+	}
+}
+
+func (h *hist) mreplace(m map[string]string) {
+	h.model = m
+	h.sortedOK = false
+}
+
+// getFn / findFn read from the store, or from the open read transaction.
+func (h *hist) getFn(k string) (string, error) {
+	if h.tx != nil {
+		return h.tx.Get(k)
+	}
+	return h.in.kv.Get(k)
+}
+
+func (h *hist) findFn(start, end string) sorted.Iterator {
+	if h.tx != nil {
+		return h.tx.Find(start, end)
+	}
+	return h.in.kv.Find(start, end)
 }
 
 func (h *hist) pickKey(preferPresent bool) ukey {
@@ -122,7 +179,16 @@ func (h *hist) pickKey(preferPresent bool) ukey {
 		ks := h.sortedModelKeys()
 		return h.uni[h.idx[ks[h.rng.Intn(len(ks))]]]
 	}
+	if h.bulk && h.rng.Intn(100) < 35 {
+		return h.uni[h.rng.Intn(h.baseN)] // keep the clustered universe (limit sizes etc.) in play
+	}
 	return h.uni[h.rng.Intn(len(h.uni))]
+}
+
+func (h *hist) noteGiant(ctx, k string) {
+	if len(k) == giantK {
+		h.note("giant_key_ops", ctx)
+	}
 }
 
 func (h *hist) useKey(k ukey) {
@@ -138,7 +204,7 @@ func (h *hist) checkGet(k, sigClass string) bool {
 	want, present := h.model[k]
 	var got string
 	var err error
-	if h.guard("get", func() { got, err = h.in.kv.Get(k) }) {
+	if h.guard("get", func() { got, err = h.getFn(k) }) {
 		return false
 	}
 	h.evals++
@@ -170,6 +236,8 @@ func (h *hist) noteLimit(ctx, k, v string, ok bool) {
 		h.note("size_limit_classes", ctx+"/key=max-stored")
 	case len(k) == maxK+1:
 		h.note("size_limit_classes", ctx+"/key>max-skipped")
+	case len(k) == giantK:
+		h.note("size_limit_classes", ctx+"/key>>max-skipped")
 	}
 	switch {
 	case len(v) == maxV && len(k) <= maxK:
@@ -184,6 +252,7 @@ func (h *hist) doGet() {
 	h.useKey(k)
 	h.log(opRec{Op: "get", Key: h.keyDesc(k.K)})
 	h.counts["get"]++
+	h.noteGiant("get", k.K)
 	h.checkGet(k.K, "get")
 }
 
@@ -209,8 +278,9 @@ func (h *hist) doSet() {
 		h.dead = true
 		return
 	}
+	h.noteGiant("set", k.K)
 	if inLimits(k.K, v.S) {
-		h.model[k.K] = v.S
+		h.mset(k.K, v.S)
 	} else {
 		h.nOversize++
 	}
@@ -237,9 +307,10 @@ func (h *hist) doDelete() {
 		h.dead = true
 		return
 	}
+	h.noteGiant("delete", k.K)
 	if _, ok := h.model[k.K]; ok {
 		h.nDelPresent++
-		delete(h.model, k.K)
+		h.mdel(k.K)
 	}
 	h.checkGet(k.K, "get")
 }
@@ -337,7 +408,8 @@ func (h *hist) doBatch(ms []mut) {
 			if _, ok := h.model[m.k.K]; ok {
 				h.nDelPresent++
 			}
-			delete(h.model, m.k.K)
+			h.mdel(m.k.K)
+			h.noteGiant("batch-delete", m.k.K)
 			continue
 		}
 		anySet = true
@@ -349,8 +421,9 @@ func (h *hist) doBatch(ms []mut) {
 		if limitClass(m.k.K, m.v.S) {
 			t.limit = true
 		}
+		h.noteGiant("batch-set", m.k.K)
 		if inLimits(m.k.K, m.v.S) {
-			h.model[m.k.K] = m.v.S
+			h.mset(m.k.K, m.v.S)
 		} else {
 			anyOver = true
 			h.nOversize++
@@ -442,6 +515,17 @@ func (h *hist) doRandomFind() {
 	if h.rng.Intn(100) < 15 {
 		limit = h.rng.Intn(4)
 	}
+	if h.bulk && h.rng.Intn(100) < 45 {
+		// stop mid-way, after anything from a handful to thousands of pairs
+		switch h.rng.Intn(3) {
+		case 0:
+			limit = h.rng.Intn(50)
+		case 1:
+			limit = 100 + h.rng.Intn(400)
+		default:
+			limit = 100 + h.rng.Intn(3000)
+		}
+	}
 	h.doFind(start, end, sd, ed, limit, "")
 }
 
@@ -449,6 +533,12 @@ func (h *hist) doRandomFind() {
 // iteration early (the interface allows closing an unexhausted iterator).
 func (h *hist) doFind(start, end, sd, ed string, limit int, sigOverride string) bool {
 	rec := opRec{Op: "find", Key: sd, End: ed}
+	if h.tx != nil {
+		rec.Op = "readtx-find"
+		if sigOverride == "" {
+			sigOverride = "readtx" // reads through a read transaction have their own signature class
+		}
+	}
 	if limit >= 0 {
 		rec.Note = fmt.Sprintf("stop after %d", limit)
 	}
@@ -482,6 +572,8 @@ func (h *hist) doFind(start, end, sd, ed string, limit int, sigOverride string) 
 		h.note("find_kinds", "bound-not-a-key")
 	}
 
+	h.noteGiant("find-start", start)
+	h.noteGiant("find-end", end)
 	var want []pair
 	for _, k := range h.sortedModelKeys() {
 		if k >= start && (end == "" || k < end) {
@@ -489,7 +581,13 @@ func (h *hist) doFind(start, end, sd, ed string, limit int, sigOverride string) 
 		}
 	}
 	if limit >= 0 && len(want) > limit {
+		if limit >= 100 {
+			h.midStops++
+		}
 		want = want[:limit]
+	}
+	if len(want) >= 1000 {
+		h.bigScans++
 	}
 
 	var got []pair
@@ -500,7 +598,7 @@ func (h *hist) doFind(start, end, sd, ed string, limit int, sigOverride string) 
 		findWhere = "find-inverted" // own signature class: an inverted range must be empty, not special
 	}
 	if h.guard(findWhere, func() {
-		it := h.in.kv.Find(start, end)
+		it := h.findFn(start, end)
 		closed := false
 		defer func() {
 			if !closed {
@@ -636,7 +734,7 @@ func (h *hist) doReopen() {
 	h.audit("reopen")
 }
 
-func runHistory(r *ev.Run, root, id string, sp *spec, hno int) {
+func runHistory(r *ev.Run, root, id string, sp *spec, hno int, bulkN int) {
 	rng := r.Rand("history/" + id)
 	dir, err := os.MkdirTemp(root, "h")
 	if err != nil {
@@ -647,10 +745,21 @@ func runHistory(r *ev.Run, root, id string, sp *spec, hno int) {
 	h := &hist{r: r, sp: sp, id: id, dir: dir, rng: rng, model: map[string]string{}, idx: map[string]int{},
 		counts: map[string]int{}, notes: map[string]map[string]bool{}}
 	h.uni = buildUniverse(rng)
+	h.baseN = len(h.uni)
 	h.rec = &caseRec{CaseID: id, Impl: sp.name}
 	for i, u := range h.uni {
 		h.idx[u.K] = i
 		h.rec.Universe = append(h.rec.Universe, fmt.Sprintf("#%d=%s", i, u.Desc))
+	}
+	var bulk []string
+	if bulkN > 0 {
+		h.bulk = true
+		bulk = bulkKeys(rng, bulkN, h.idx)
+		for _, k := range bulk {
+			h.idx[k] = len(h.uni)
+			h.uni = append(h.uni, ukey{K: k, Desc: strconv.Quote(k)})
+		}
+		h.rec.Universe = append(h.rec.Universe, bulkUniverseLine(bulkN))
 	}
 	in, err := sp.open(dir)
 	if err != nil {
@@ -659,10 +768,20 @@ func runHistory(r *ev.Run, root, id string, sp *spec, hno int) {
 	}
 	h.in = in
 
+	if h.bulk {
+		h.bulkLoad(bulk)
+	}
+	_, canWipe := in.kv.(sorted.Wiper)
+	_, canReadTx := in.kv.(sorted.TransactionalReader)
 	nops := 100 + rng.Intn(501)
 	for i := 0; i < nops && !h.dead && h.reported < 3; i++ {
 		c := rng.Intn(100)
+		t0, n0 := time.Now(), len(h.rec.Ops)
 		switch {
+		case c == 99 && canWipe && !h.bulk:
+			h.doWipe()
+		case c >= 97 && c <= 98 && canReadTx:
+			h.doReadTx()
 		case c < 17:
 			h.doGet()
 		case c < 39:
@@ -688,9 +807,24 @@ func runHistory(r *ev.Run, root, id string, sp *spec, hno int) {
 		default:
 			h.audit("")
 		}
+		if debugTiming && n0 < len(h.rec.Ops) {
+			addTiming(sp.name+"/"+h.rec.Ops[n0].Op, time.Since(t0)) // diagnostics only (C10_DEBUG)
+		}
 	}
 	if !h.dead && h.reported < 3 {
 		h.audit("")
+	}
+	if h.bulk && canWipe && !h.dead && h.reported < 3 {
+		// Wipe of a large store, then the store must go on as a map
+		h.doWipe()
+		for i := 0; i < 6 && !h.dead && h.reported < 3; i++ {
+			h.doBatch(h.genBatch())
+		}
+		if sp.persistent && !h.dead && h.reported < 3 {
+			h.doReopen()
+		} else if !h.dead && h.reported < 3 {
+			h.audit("")
+		}
 	}
 	if !h.dead {
 		var cerr error
@@ -708,13 +842,21 @@ func runHistory(r *ev.Run, root, id string, sp *spec, hno int) {
 		r.Count("ops_"+op, n)
 		r.Count("ops/"+sp.name+"/"+op, n)
 		switch op {
-		case "get", "set", "delete", "batch", "find", "flush", "reopen":
+		case "get", "set", "delete", "batch", "find", "flush", "reopen", "wipe", "readtx":
 			r.Note("op_"+op, sp.name)
 		}
 	}
 	for set, m := range h.notes {
 		for item := range m {
 			r.Note(set, item)
+		}
+	}
+	if h.bulk {
+		r.Count("bulk_histories", 1)
+		r.Count("bulk_scans_stopped_midway", h.midStops)
+		r.Count("bulk_scans_of_1000_or_more_pairs", h.bigScans)
+		if h.maxLive >= 1000 && h.midStops > 0 && h.bigScans > 0 && !h.dead {
+			r.Note("bulk_history_ran", sp.name)
 		}
 	}
 	if h.nBatchRepeat > 0 && h.nDelPresent > 0 && h.nFind >= 3 && h.nOversize > 0 {
@@ -733,5 +875,36 @@ func runHistory(r *ev.Run, root, id string, sp *spec, hno int) {
 			s.Universe = append(append([]string(nil), s.Universe[:10]...), fmt.Sprintf("... %d keys in all", len(h.rec.Universe)))
 		}
 		r.Sample(map[string]any{"case_id": s.CaseID, "impl": s.Impl, "universe": s.Universe, "first_ops": s.Ops, "ops_total": len(h.rec.Ops)})
+	}
+}
+
+// ---- diagnostics (C10_DEBUG=1): where the wall time goes; never used in a verdict
+var (
+	debugTiming = os.Getenv("C10_DEBUG") != ""
+	timingMu    sync.Mutex
+	timings     = map[string]time.Duration{}
+	timingN     = map[string]int{}
+)
+
+func addTiming(k string, d time.Duration) {
+	timingMu.Lock()
+	timings[k] += d
+	timingN[k]++
+	timingMu.Unlock()
+}
+
+func dumpTimings() {
+	timingMu.Lock()
+	defer timingMu.Unlock()
+	var ks []string
+	for k := range timings {
+		ks = append(ks, k)
+	}
+	sort.Slice(ks, func(i, j int) bool { return timings[ks[i]] > timings[ks[j]] })
+	for i, k := range ks {
+		if i >= 40 {
+			break
+		}
+		fmt.Fprintf(os.Stderr, "OPTIME %-40s total %-14v n=%-6d avg %v\n", k, timings[k], timingN[k], timings[k]/time.Duration(timingN[k]))
 	}
 }
